@@ -1,7 +1,7 @@
 //@ unit C02_find
 //@ props C02 C04 C05
 //@ strength proved-unbounded
-//@ min-verified 6
+//@ min-verified 8
 //@ assume MatchType::match_glyph is abstracted as an uninterpreted predicate of (match type, GDEF, glyph); its conformance to the lookup-flag rule is Kani unit C04_flag
 //@ assume GDEFTable is an opaque placeholder type in this unit (only passed through)
 //@ unverified MatchType::find_first (iter().enumerate()) - exercised by Kani unit C04_seq
